@@ -493,9 +493,19 @@ Definition live_cids (o : ost) : list cid :=
                     end
                else acc) (o_missed o) [].
 
+Definition snap_conns (s : csnap) (p : peer) : list conn :=
+  match s with
+  | CSnap _ _ _ peers _ _ _ _ _ =>
+      match find (fun ps => match ps with PSnap q _ _ _ _ _ _ => q =? p end) peers with
+      | Some (PSnap _ conns _ _ _ _ _) => conns
+      | None => []
+      end
+  end.
+Definition is_ss_ready (o : option sending_state) : bool := match o with Some SsReady => true | _ => false end.
+
 Definition c4_step (known : list peer) (prev : csnap) (now' : N) (o_before o_after : ost) (g : c4) (op : cop) (obs : cobs) : c4 :=
   (* sessions that ended (no state for the peer any more) are forgotten *)
-  let peers00 := filter (fun e => n_mem (fst e) (snap_peers (snd obs)) || n_mem (fst e) known) (c4_peers g) in
+  let peers00 := filter (fun e => n_mem (fst e) (snap_peers (snd obs))) (c4_peers g) in
   let faulty := map fst (faults_of prev now' op) in
   let peers0 := map (fun e => if n_mem (fst e) faulty then (fst e, pv_fault (snd e)) else e) peers00 in
   let w_before := c4_w g in
@@ -513,13 +523,24 @@ Definition c4_step (known : list peer) (prev : csnap) (now' : N) (o_before o_aft
       let w1 := live_cids o_after in
       let anew := filter (fun c => negb (cid_mem c w_before)) w1 in
       let peers1 := map (fun e => (fst e, fold_left (fun v c => pv_wanted_anew c v) anew (snd e))) peers0 in
-      fold_left (fun g out =>
+      let g1 := fold_left (fun g out =>
                    match out with
                    | OSendWantlist p _ full es =>
                        let '(v', ok) := pv_generate (c4_w g) (pv_get p (c4_peers g)) full es in
                        MkC4 (c4_w g) (pv_set p v' (c4_peers g)) (c4_ok g && ok)
                    | _ => g
-                   end) (fst obs) (MkC4 w1 peers1 (c4_ok g))
+                   end) (fst obs) (MkC4 w1 peers1 (c4_ok g)) in
+      (* a peer that was Ready with a connection before this poll and was sent nothing: update_handlers generated an
+         update for it and found it empty — a generated wantlist with no entries (same checks: nothing wanted is left
+         unannounced, nothing withdrawn is left in its view; `told` becomes W, so that an answer about a CID that left
+         W is not solicited any more) *)
+      let sent := flat_map (fun out => match out with OSendWantlist p _ _ _ => [p] | _ => [] end) (fst obs) in
+      fold_left (fun g p =>
+                   if is_ss_ready (snap_ss prev p) && negb (match snap_conns prev p with [] => true | _ => false end)
+                      && negb (n_mem p sent) && n_mem p (snap_peers (snd obs))
+                   then let '(v', ok) := pv_generate (c4_w g) (pv_get p (c4_peers g)) false [] in
+                        MkC4 (c4_w g) (pv_set p v' (c4_peers g)) (c4_ok g && ok)
+                   else g) (snap_peers prev) g1
   | _ =>
       (* cancels shrink W *)
       MkC4 (live_cids o_after) peers0 (c4_ok g)
@@ -582,16 +603,6 @@ Definition oracle_C05_faults (x : case) : bool := c5_run csnap0 0 [] (snd (fst x
    wantlist to that peer and cancelled when the peer's state is dropped (its next session starts with a full one).  A
    poll that finds an owing peer Ready (in the implementation's own snapshot before the poll) with a connection must
    send it a wantlist, and that wantlist must be full. *)
-Definition snap_conns (s : csnap) (p : peer) : list conn :=
-  match s with
-  | CSnap _ _ _ peers _ _ _ _ _ =>
-      match find (fun ps => match ps with PSnap q _ _ _ _ _ _ => q =? p end) peers with
-      | Some (PSnap _ conns _ _ _ _ _) => conns
-      | None => []
-      end
-  end.
-Definition is_ss_ready (o : option sending_state) : bool := match o with Some SsReady => true | _ => false end.
-
 Fixpoint c5r_run (prev : csnap) (now deadline : N) (owed : list peer) (ops : list cop) (obs : list cobs) : bool :=
   match ops, obs with
   | op :: ops', ob :: obs' =>
@@ -627,6 +638,39 @@ Fixpoint c5r_count (prev : csnap) (now deadline : N) (ops : list cop) (obs : lis
   | _, _ => false
   end.
 Definition refresh_exercised (x : case) : bool := c5r_count csnap0 0 SEND_FULL_INTERVAL (snd (fst x)) (snd x).
+
+(* C17 at the client level: a WANT_BLOCK entry for c goes to peer p only if the latest presence about c that p sent during
+   the session (since the implementation holds state for p) is HAVE.  Ghost: per peer, the latest presence per CID, from the
+   incoming messages only; forgotten when the implementation drops the peer's state. *)
+Fixpoint c17_run (prev : csnap) (lat : list (peer * list (cid * bool))) (ops : list cop) (obs : list cobs) : bool :=
+  match ops, obs with
+  | op :: ops', ob :: obs' =>
+      let lat1 := match op with
+                  | CIncoming p pres _ =>
+                      if n_mem p (snap_peers prev)
+                      then let cur := match al_get p lat with Some l => l | None => [] end in
+                           let cur' := fold_left (fun l ch => (fst ch, snd ch) :: filter (fun e => negb (cid_eqb (fst ch) (fst e))) l) pres cur in
+                           (p, cur') :: filter (fun e => negb (fst e =? p)) lat
+                      else lat
+                  | _ => lat
+                  end in
+      let ok := forallb (fun o => match o with
+                  | OSendWantlist p _ _ es =>
+                      forallb (fun e => match fst e with
+                                        | KWantBlock =>
+                                            match al_get p lat1 with
+                                            | Some l => match find (fun x => cid_eqb (snd e) (fst x)) l with Some (_, true) => true | _ => false end
+                                            | None => false
+                                            end
+                                        | _ => true end) es
+                  | _ => true end) (fst ob) in
+      let lat2 := filter (fun e => n_mem (fst e) (snap_peers (snd ob))) lat1 in
+      ok && c17_run (snd ob) lat2 ops' obs'
+  | _, _ => true
+  end.
+Definition oracle_C17 (x : case) : bool := c17_run csnap0 [] (snd (fst x)) (snd x).
+Definition sends_want_block (x : case) : bool :=
+  existsb (fun ob => existsb (fun o => match o with OSendWantlist _ _ _ es => existsb (fun e => match fst e with KWantBlock => true | _ => false end) es | _ => false end) (fst ob)) (snd x).
 
 Definition oracle_C05 (x : case) : bool := oracle_C05_first x && oracle_C05_faults x && oracle_C05_refresh x.
 Definition oracle (x : case) : bool := oracle_all x && oracle_C05 x.
